@@ -357,6 +357,14 @@ impl<T: Float> IsotropicGaussian<T> {
     }
 }
 
+#[cfg(feature = "verif-hooks")]
+impl<T: Float> IsotropicGaussian<T> {
+    /// Verification hook: read access to the private generator.
+    pub fn verif_rng(&self) -> &SmallRng {
+        &self.rng
+    }
+}
+
 impl<T: Float + std::ops::AddAssign> Proposal<T, T> for IsotropicGaussian<T>
 where
     rand_distr::StandardNormal: rand_distr::Distribution<T>,
